@@ -302,6 +302,9 @@ func (p *prog) run() {
 			p.opCreate(p.keys[1+r.Intn(len(p.keys)-1)])
 		}
 	}
+	if r.Intn(3) == 0 && !p.dead {
+		p.sparseSmall()
+	}
 	for s := n0; s < steps && !p.dead; s++ {
 		p.randomStep()
 	}
@@ -428,6 +431,37 @@ func (p *prog) randomStep() {
 // ---------------------------------------------------------------------------------------------
 // operations
 
+// sparseSmall: an upload whose parts are numbered k .. k+m-1 with k >= m (2,3 / 3,4,5 / 7,9), all small, completed
+// with exactly that list: every part but the last is below 5 MiB - the list is invalid whatever the numbers are - so
+// no object may be created or replaced; the upload stays usable.
+func (p *prog) sparseSmall() {
+	before := len(p.uploads)
+	p.opCreate(p.keys[p.r.Intn(len(p.keys))])
+	if len(p.uploads) == before || p.dead {
+		return
+	}
+	u := p.uploads[len(p.uploads)-1]
+	nums := [][]int{{2, 3}, {3, 4, 5}, {7, 9}, {2, 10000}}[p.r.Intn(4)]
+	for _, n := range nums {
+		body := p.bytes(100 + p.r.Intn(900))
+		p.logf("upload-part U%d n=%d size=%d (sparse numbering, small)", u.n, n, len(body))
+		resp := p.req("upload-part", false, &s3c.Req{Method: "PUT", Path: s3c.ObjPath(p.bucket, u.key), Query: s3c.Q("partNumber", fmt.Sprint(n), "uploadId", u.id), Body: body})
+		if resp.Err != nil {
+			return
+		}
+		p.result("%s", resp)
+		if !resp.OK() {
+			return
+		}
+		p.setPart(u, n, body)
+	}
+	var list []s3c.Part
+	for _, n := range u.numbers() {
+		list = append(list, s3c.Part{N: n, ETag: u.parts[n].etag})
+	}
+	p.doComplete(u, completeCase{variant: "sparse-numbers-small-parts", list: list})
+}
+
 func (p *prog) opCreate(key string) {
 	meta, tags, hdr := p.attrs()
 	p.kinds["create"] = true
@@ -453,7 +487,7 @@ func (p *prog) opCreate(key string) {
 			return
 		}
 	}
-	u := &upload{n: len(p.uploads), id: o.UploadId, key: key, meta: meta, tags: tags, hdr: hdr, parts: map[int]*part{}, state: "live"}
+	u := &upload{n: len(p.uploads), id: o.UploadId, key: key, meta: meta, tags: tags, hdr: hdr, parts: map[int]*part{}, state: "live", noPart1: p.r.Intn(4) == 0}
 	p.uploads = append(p.uploads, u)
 	p.result("U%d", u.n)
 	if o.Key != key {
@@ -471,6 +505,9 @@ func (p *prog) choosePartNumber(u *upload) int {
 	switch {
 	case x < 55:
 		for _, n := range partNumbers[:5] {
+			if n == 1 && u.noPart1 {
+				continue
+			}
 			if u.parts[n] == nil {
 				return n
 			}
@@ -903,6 +940,10 @@ func (p *prog) buildComplete(u *upload) completeCase {
 		if len(mustFail(u.faults(cc.list, nil))) > 0 && r.Intn(2) == 0 {
 			cc.variant, cc.list = "best-valid", u.bestValid()
 		}
+	case x < 36 && len(ns) >= 3:
+		// the list leaves out the lowest part: its numbers do not start at 1 and are not 1..n, every other rule applies
+		// as before (each part but the last at least 5 MiB, judged by its place in the list, not by its number)
+		cc.variant, cc.list = "without-lowest-part", all()[1:]
 	case x < 42:
 		cc.variant = "subset"
 		for _, lp := range all() {
